@@ -77,7 +77,7 @@ CHECKS = {
             'Partial: the semantics of asyncio, trio and threading enters the LTS as the enabling conditions of its events (assumed, DESIGN §7.1); real thread interleavings inside the frameworks and wall-clock bounds are sampled by the scenario engine, not proved. Trusted: Lean kernel + standard axioms; the LTS Model/Runtime/LTS.lean (tied by trace acceptance); the scenario engine and its mapping of log entries to model events.'),
     "C12": ("§7.8",
             'Lean 4 invariant proofs over one labelled transition system of the MetaRunner/ServiceRunner protocol (induction over arbitrary event sequences: every number of payloads, every interleaving the guards admit) + correspondence by replaying the event logs of gated scenarios run against the real runtime on the model (subset-construction trace acceptor) + outcome oracle',
-            'guard_mutex, reject_frame, guard_released, restart, shutdown_enabled, shutdown_returns, shutdown_completes (a stop request ends the run call within 8 closing steps, by a normal return when no failure was recorded), interrupt_completes, shutdown_idle are theorems over the runtime LTS; tied to the code by histories over several ServiceRunner instances (accept, concurrent accept - also on the active instance while a shutdown is pending -, shutdown from outside or from a thread payload, shutdown again after the end, SIGINT, failing payload, accept again).',
+            'guard_mutex, reject_frame, guard_released, restart, shutdown_enabled, shutdown_returns, shutdown_completes (a stop request ends the run call within 8 closing steps, by a normal return when no failure was recorded), interrupt_completes, shutdown_idle, shutdown_twice (overlapping shutdown requests are one request) are theorems over the runtime LTS; tied to the code by histories over several ServiceRunner instances (accept, concurrent accept - also on the active instance while a shutdown is pending -, shutdown from outside, from several threads at once or from a thread payload, in the instant running is reported, again after the end, SIGINT, failing payload, accept again).',
             'Partial: the semantics of asyncio, trio and threading enters the LTS as the enabling conditions of its events (assumed, DESIGN §7.1); real thread interleavings inside the frameworks and wall-clock bounds are sampled by the scenario engine, not proved. Trusted: Lean kernel + standard axioms; the LTS Model/Runtime/LTS.lean (tied by trace acceptance); the scenario engine and its mapping of log entries to model events.'),
     "C13": ("§7.9",
             "Lean 4 corollaries of the runtime-LTS theorems for the daemon's instantiation (loader = queued asyncio payload) + totality of the loader dispatch + correspondence with real `python -m cobald.daemon` child processes whose event files are replayed on the LTS + outcome oracle",
